@@ -881,6 +881,81 @@ func ruleListCover(p *Prog, r *Result) {
 				fixedIdx = p.InstrPos(c)
 			}
 		})
+		// ... to the end: the kinds form a ladder (integer, float, text) and only `text` is final, so the deciding loop
+		// is left early only under the flag that selects the text list (a float seen so far can still be followed
+		// by a text that is not a number)
+		if nDecide > 0 {
+			// the text flag: the Boolean variable under whose true value the []string builder is called
+			textVar := ""
+			allInstrs(row.Body, func(in ssa.Instruction) {
+				c, ok := in.(*ssa.Call)
+				if !ok {
+					return
+				}
+				g := c.Call.StaticCallee()
+				if g == nil || !p.InPkg(g) {
+					return
+				}
+				if k, _ := p.bodyKinds(g); !k["[]string"] || len(k) != 1 {
+					return
+				}
+				for _, a := range dominatingAtoms(in.Block()) {
+					if ph, ok := a.X.(*ssa.Phi); ok && ph.Comment != "" {
+						if bv, isB := constBool(a.Y); isB && ((a.Op == token.EQL) == bv) {
+							textVar = ph.Comment
+						}
+					}
+				}
+			})
+			early := ""
+			for _, L := range naturalLoops(row.Body) {
+				decides := false
+				for b := range L.Body {
+					for _, in := range b.Instrs {
+						if ta, ok := in.(*ssa.TypeAssert); ok && ta.CommaOk {
+							if ex, ok := ta.X.(*ssa.Extract); ok {
+								if c, ok := ex.Tuple.(*ssa.Call); ok && c.Call.IsInvoke() && c.Call.Method.Name() == "Execute" {
+									decides = true
+								}
+							}
+						}
+					}
+				}
+				if !decides {
+					continue
+				}
+				for b := range L.Body {
+					if b == L.Header {
+						continue
+					}
+					for si, sc := range b.Succs {
+						if L.Body[sc] {
+							continue
+						}
+						if retOf(sc) != nil && len(sc.Instrs) <= 3 {
+							continue // an error return
+						}
+						okExit := false
+						if a, isA := edgeAtom(b, si); isA {
+							if ph, ok := a.X.(*ssa.Phi); ok && textVar != "" && ph.Comment == textVar {
+								if bv, isB := constBool(a.Y); isB && ((a.Op == token.EQL) == bv) {
+									okExit = true
+								}
+							}
+						}
+						if !okExit {
+							early = p.Pos(b.Instrs[len(b.Instrs)-1].Pos())
+							if early == "" || early == "-" {
+								early = fmt.Sprintf("block %d", b.Index)
+							}
+						}
+					}
+				}
+			}
+			if textVar != "" {
+				r.add(early == "", "list|kind-to-the-end", p.Pos(row.Body.Pos()), firstNonEmpty(map[bool]string{true: "the loop that decides the element kind is left early (" + early + ") under something else than the text flag `" + textVar + "`: an argument behind that point no longer counts"}[early != ""], "the deciding loop runs over all arguments unless the kind is already text"))
+			}
+		}
 		if nDecide > 0 {
 			r.add(fixedIdx == "", "list|kind-from-all", p.Pos(row.Body.Pos()), firstNonEmpty(map[bool]string{true: "the element kind is decided from one fixed argument (evaluated at " + fixedIdx + "): a later text that is not a number silently becomes 0"}[fixedIdx != ""], "the element kind is decided from every argument"))
 		}
